@@ -311,7 +311,11 @@ func (s *Break) stmt(b *strings.Builder, ind int)    { indent(b, ind); b.WriteSt
 func (s *Continue) stmt(b *strings.Builder, ind int) { indent(b, ind); b.WriteString("continue;\n") }
 func (s *Append) stmt(b *strings.Builder, ind int) {
 	indent(b, ind)
-	b.WriteString("append(&'")
+	if s.NoBorrow {
+		b.WriteString("append(")
+	} else {
+		b.WriteString("append(&'")
+	}
 	s.Arr.src(b)
 	b.WriteString(", ")
 	s.Val.src(b)
